@@ -78,6 +78,17 @@ PROPS["C25"] = {
     "level_note": "Trusted: Kani/CBMC/cadical, the interval-overlap oracle. Found and repaired F2 (repo abe3802).",
 }
 
+PROPS["C40"] = {
+    "enc": ["RevisitableGroupByForIterator::revisitable_group_by", "RevisitableGroupBy::next", "RevisitableGroup::next",
+            "instantiated with I = Copied<slice::Iter<u8>>, K = u8, driven by the verif_group_by hook"],
+    "sym": "6 item bytes (item value = low 2 bits), length 0..=6, a symbolic 4-entry key table (= every key function over a 4-value item domain), per-group consumption counts 0..=7",
+    "bound": "Sequences of length <= 6 over 4 item values with keys in u8; unwind 8 with unwinding assertions.",
+    "outside": "longer sequences, other iterator/key types (the code is generic and does not inspect them)",
+    "assumptions": COMMON_ASSUME + ["the key function is pure (a table lookup)"],
+    "level_text": "Bounded symbolic execution (Kani/CBMC) of the real group-by iterators over every input sequence of length <= 6 and every key function on a 4-value domain: groups concatenate to the input in order, are non-empty, share the reported key, adjacent keys differ, reported length equals item count; partially or not consumed groups do not disturb the outer iterator.",
+    "level_note": "Trusted: Kani/CBMC/cadical and the recording closures of the harness.",
+}
+
 NOT_APPLICABLE = {}
 _L = ("observable only on a live collector (MMTK instance, mmap'd heap, OS worker threads, VM call-backs); Kani has no thread/FFI model and a "
       "whole collection is outside any unwinding bound; the bit-level kernels are decided under ")
@@ -102,5 +113,5 @@ NOT_APPLICABLE.update({
     "C39": "DESIGN P11: 3 symbolic bytes through to_lowercase/parse/format! exceed 420 s; GCTriggerSelector::from_str compiles two regex::Regex",
 })
 # Claimed in DESIGN.md but not built yet: listed as not applicable until their check exists.
-for _p in ["C08", "C10", "C17", "C18", "C20", "C21", "C22", "C24", "C26", "C27", "C28", "C29", "C31", "C34", "C35", "C37", "C38", "C40"]:
+for _p in ["C08", "C10", "C17", "C18", "C20", "C21", "C22", "C24", "C26", "C27", "C28", "C29", "C31", "C34", "C35", "C37", "C38"]:
     NOT_APPLICABLE.setdefault(_p, "check planned in DESIGN.md section 3 but not built yet; not claimed until its harnesses are registered")
